@@ -248,4 +248,63 @@ pub fn run(ctx: &mut Ctx) {
         }
     }
     ctx.rec.checkpoint();
+    // (4) beyond 2^24 elements: an element's index is no longer exactly representable in f32, a
+    // counter kept in f32 stops counting. One vector of 2^24+64 elements per constructor (64 MiB),
+    // checked element by element against the documented formula (own shard, not under fuzz/miri).
+    case += 1;
+    if ctx.mine(case) && !ctx.is_fuzz() && ctx.mode != "miri" {
+        use pushr::push::state::PushState;
+        let n: usize = (1 << 24) + 64;
+        ctx.rec.case_marker(case, "FLOATVECTOR.SINE huge");
+        let (amp, x, phi) = (100.0f32, 1.0f32 / 1024.0, 0.25f32);
+        let mut st = PushState::new();
+        st.int_stack.push(n as i32);
+        st.float_stack.push(phi);
+        st.float_stack.push(x);
+        st.float_stack.push(amp);
+        let o = crate::mon::step_named(&mut st, &mut is, &cache, "FLOATVECTOR.SINE");
+        ctx.rec.count("steps", 1);
+        ctx.rec.count("huge_vector_cases", 1);
+        if let Some(p) = o.panic {
+            ctx.rec.violation("C09", &format!("FLOATVECTOR.SINE|panic|{}", crate::mon::panic_sig(&p)), &format!("length {}: {}", n, p), "");
+        } else {
+            match st.float_vector_stack.get(0) {
+                Some(v) if v.values.len() == n => {
+                    let mut bad = None;
+                    for (i, got) in v.values.iter().enumerate() {
+                        let want = amp * (2.0 * std::f32::consts::PI * x * i as f32 + phi).sin();
+                        if (got - want).abs() > 1e-3 * amp {
+                            bad = Some((i, *got, want));
+                            break;
+                        }
+                    }
+                    ctx.rec.count("huge_vector_elements_checked", n as u64);
+                    if let Some((i, got, want)) = bad {
+                        ctx.rec.violation("C09", "FLOATVECTOR.SINE|mismatch", &format!("length {}: element {} is {} but A*sin(2*pi*x*i+phi) = {} (A=100, x=1/1024, phi=0.25)", n, i, got, want), "");
+                    }
+                }
+                other => ctx.rec.violation("C09", "FLOATVECTOR.SINE|mismatch", &format!("length {} requested, got {:?} elements", n, other.map(|v| v.values.len())), ""),
+            }
+        }
+        ctx.rec.cover("huge|FLOATVECTOR.SINE");
+        drop(st);
+        for name in ["FLOATVECTOR.ONES", "INTVECTOR.ZEROS", "BOOLVECTOR.ONES"] {
+            let mut st = PushState::new();
+            st.int_stack.push(n as i32);
+            ctx.rec.case_marker(case, name);
+            let o = crate::mon::step_named(&mut st, &mut is, &cache, name);
+            ctx.rec.count("steps", 1);
+            ctx.rec.count("huge_vector_cases", 1);
+            let ok = match name {
+                "FLOATVECTOR.ONES" => st.float_vector_stack.get(0).map(|v| v.values.len() == n && v.values.iter().all(|x| *x == 1.0)),
+                "INTVECTOR.ZEROS" => st.int_vector_stack.get(0).map(|v| v.values.len() == n && v.values.iter().all(|x| *x == 0)),
+                _ => st.bool_vector_stack.get(0).map(|v| v.values.len() == n && v.values.iter().all(|x| *x)),
+            };
+            if o.panic.is_some() || ok != Some(true) {
+                ctx.rec.violation("C09", &format!("{}|mismatch", name), &format!("length {}: panic {:?}, all-elements check {:?}", n, o.panic, ok), "");
+            }
+            ctx.rec.cover(&format!("huge|{}", name));
+        }
+    }
+    ctx.rec.checkpoint();
 }
